@@ -90,6 +90,54 @@ Expr -> Expr:
 ;
 `
 
+const famDeepLA = `language %NAME%(go);
+
+lang = "%NAME%"
+package = "github.com/inspirer/textmapper/zzverif/gen/%NAME%"
+eventBased = true
+cancellable = true
+%OPTS%
+
+:: lexer
+
+ws: /[ \t\r\n]+/ (space)
+comment: /#[^\n]*/ (space)
+invalid_token:
+error:
+id: /[a-wA-Z_][a-zA-Z_0-9]*/
+num: /[0-9]+/
+'x': /x/
+'y': /y/
+'z': /z/
+'=': /=/
+'(': /\(/
+')': /\)/
+';': /;/
+
+:: parser lalr(3)
+
+%input File;
+
+%inject comment -> Comment;
+%inject invalid_token -> InvalidToken;
+
+File -> File: Stmt+ ;
+
+Stmt -> Stmt:
+    'z' X 'z' 'z' 'x' ';'       -> AX
+  | 'z' Y 'z' 'z' 'y' ';'       -> AY
+  | '(' P 'z' 'z' ')' ';'       -> BP
+  | '(' Q 'z' 'z' '=' num ';'   -> BQ
+  | id '=' num ';'              -> Assign
+  | error ';'                   -> Broken
+;
+
+X -> X: 'z';
+Y -> Y: 'z';
+P -> P: id;
+Q -> Q: id;
+`
+
 // chained lookaheads: the generated lookaheadRule/applyRule try predicates one after the
 // other; nested ones make the lookahead sub-parser recursive.
 const famLookahead = `language %NAME%(go);
@@ -299,6 +347,7 @@ var genFamilies = []*genFamily{
 			{"", "{", " # c\n", "a = 1;", "}", ""},
 			{"z = ", "(", " # c\n", "1", ")", ";"},
 			{"", "if (a)", " # c\n", "b = 1;", "", ""},
+			{"a = 1;\n", "", "# c\n", "b = 2;", "", ""}, // a long run of reported, never shifted tokens
 		},
 		items: []string{
 			"a = 1;", "b = a + 2 * c;", "print a;", "print (a + b) * c;", "{ a = 1; b = 2; }", "if (a) b = 1;", "if (a + 1) { print b; }",
@@ -316,9 +365,23 @@ var genFamilies = []*genFamily{
 		deep: [][6]string{
 			{"", "(", " # c\n", "1", ")", ";"},
 			{"q = 1", " + 2", "", "", "", ";"},
+			{"1;\n", "", "# c\n", "2;", "", ""},
 		},
 		knobs:   []string{"optimizeTables", "cancellableFetch", "tokenLine"},
 		presets: [][]string{{"tokenLine"}, {"optimizeTables", "cancellableFetch", "tokenLine"}},
+	},
+	{
+		// lalr(3): conflicts resolved by reading further tokens from a copy of the lexer
+		name: "deepla", text: famDeepLA, recovery: true, space: []string{"COMMENT", "INVALID_TOKEN"},
+		sep: "\n",
+		items: []string{
+			"z z z z x ;", "z z z z y ;", "( a z z ) ;", "( b z z = 1 ;", "a = 1;", "# comment", "z z z z x ; z z z z y ;",
+		},
+		deep: [][6]string{
+			{"a = 1;\n", "", "# c\n", "z z z z y ;", "", ""},
+		},
+		knobs:   []string{"cancellableFetch", "tokenLine", "tokenStream", "fixWhitespace"},
+		presets: [][]string{{"tokenLine"}, {"cancellableFetch"}, {"tokenStream", "cancellableFetch", "tokenLine"}},
 	},
 	{
 		name: "lookahead", text: famLookahead, lookaheads: true,
